@@ -111,7 +111,7 @@ class Run:
 
     def finish(self) -> int:
         wall = time.time() - self.t0
-        outdir = os.path.join(VERIF, "out", self.pid)
+        outdir = os.path.join(os.environ.get("VERIF_OUT_DIR") or os.path.join(VERIF, "out"), self.pid)
         os.makedirs(outdir, exist_ok=True)
         lines = []
         for fid, (cnt, f, key) in self.known_hits.items():
@@ -157,8 +157,9 @@ class Run:
             "wall_s": round(wall, 2),
             "violations": len(self.violations),
         }
-        os.makedirs(os.path.join(VERIF, "evidence"), exist_ok=True)
-        with open(os.path.join(VERIF, "evidence", f"{self.pid}.json"), "w") as fh:
+        evdir = os.environ.get("VERIF_EVIDENCE_DIR") or os.path.join(VERIF, "evidence")   # overridden only by tools/seedmatrix.sh
+        os.makedirs(evdir, exist_ok=True)
+        with open(os.path.join(evdir, f"{self.pid}.json"), "w") as fh:
             json.dump(ev, fh, indent=1)
         for ln in lines:
             print(ln, flush=True)
